@@ -28,6 +28,11 @@ deriving DecidableEq, Repr, Inhabited
 def conflict (excl : Nat → Nat → Bool) (s item : Sym) : Bool :=
   s.name == item.name && (s.ns == item.ns && !(excl s.defctx item.defctx))
 
+/-- `DefineContext::exclusive` on the `pos` / `neg` identifier sets of two contexts
+    (`!self.pos.is_disjoint(&value.neg) || !self.neg.is_disjoint(&value.pos)`, namespace.rs). -/
+def exclusiveSets (pos neg pos' neg' : List Nat) : Bool :=
+  pos.any (fun x => neg'.contains x) || neg.any (fun x => pos'.contains x)
+
 /-- `SymbolTable::insert`: refused (table unchanged) on conflict, else appended. -/
 def insertSym (excl : Nat → Nat → Bool) (tbl : List Sym) (s : Sym) : List Sym :=
   if tbl.any (conflict excl s) then tbl else tbl ++ [s]
